@@ -42,7 +42,14 @@ RULE = ('case = one block of save_/load_ calls of the real functions on 1-3 temp
         'sweep: save/load of every dt=k/10000 in the enumerated range. long: npts in {65535, 65536, 65537, 70001, 131072, '
         '131073, 200003} (thorough: also 2**p, 2**p+-1 and random lengths around 2**p for p=10..18, and up to 524289 '
         'points), each through both savers and every loader entry point. distinct = digest of (all saved records, dt, '
-        'labels, layouts, call list); non-trivial = some saved record has a value that does not round to 0.')
+        'labels, layouts, call list); non-trivial = some saved record has a value that does not round to 0. Audit 2: '
+        'block-boundary lengths 4095..50001 (2**p+-1, decimal blocks, k blocks + 1; thorough to 250001), dt with awkward '
+        'float quotients (gen.awkward_dt), raw reciprocals 1/k and steps within 1 % of them; records with one sample 1e3..1e12 '
+        'times the steps of the others, monotone, one-sided, tail-heavy, constant-magnitude alternating, single step, '
+        'exact zeros inside; m as 0-d / one-element array; results edited in place by the caller and the path read '
+        'again; objhist objects that are warm (spectra, series, peaks cached), deep copies, and objects made by the '
+        'library itself (interp_to_approx_dt, resample_to_approx_dt, Cluster.signal_by_index); a complex fas2signal record '
+        'is saved as an observation only.')
 ASSUMPTIONS = ['the format holds values to 6 and dt to 4 decimals: "same to nd decimals" = the multiple of 10**-nd nearest '
                'to the saved number; within 4 ulps of a half-way point (exact ties included) either neighbour is accepted',
                'finite real values, length >= 1, single-line str label; dt in [1e-4, 1000] is judged (every step the '
@@ -53,6 +60,11 @@ ASSUMPTIONS = ['the format holds values to 6 and dt to 4 decimals: "same to nd d
                '"unchanged" also covers the caller\'s side: a save must leave its arguments bit-for-bit as they were '
                '(clause save.leaves-arguments-unchanged) and a result handed out by a loader must not change when later '
                'calls run (clause earlier-result-intact-after-later-call)',
+               'save_signal must leave EVERY attribute of the object as it was (values, dt, label, options, cached series, '
+               'spectra and cache flags), compared bit for bit; two results handed out by loaders never share memory (nor are '
+               'the same object): clause returned-objects-share-no-memory',
+               'a load factor m given as a 0-d or one-element array is judged like the scalar; longer arrays and complex '
+               'records (fas2signal) are outside the format and only counted',
                'requested type is judged exactly: Signal requested -> type is Signal (not the subclass AccSignal)',
                'the label is judged only when requested (load_asig(load_label=True))',
                'files are written and read within one process on a local temporary directory; nothing else touches them',
@@ -68,7 +80,8 @@ MIN_EVALS = {'quick': {'npts': 120000, 'dt==round4(saved)': 120000, 'values==m*r
                        'type.load_signal(signal)->Signal': 10000, 'type.load_signal(acc_sig)->AccSignal': 10000,
                        'type.load_sig->Signal': 11000, 'type.load_asig->AccSignal': 14000,
                        'history.same-path-reload': 20000, 'long-record(>65536).reload': 40,
-                       'save.leaves-arguments-unchanged': 50000, 'earlier-result-intact-after-later-call': 100000},
+                       'save.leaves-arguments-unchanged': 50000, 'earlier-result-intact-after-later-call': 100000,
+                       'returned-objects-share-no-memory': 90000, 'block-boundary-record(4095..65536).reload': 60},
              'thorough': {'npts': 2200000, 'dt==round4(saved)': 2200000, 'values==m*round6(saved)': 2200000,
                           'dt.within-half-4th-decimal': 2200000, 'values.within-half-6th-decimal': 2200000,
                           'label==saved(load_label=True)': 200000, 'call-returns': 2000000,
@@ -77,7 +90,8 @@ MIN_EVALS = {'quick': {'npts': 120000, 'dt==round4(saved)': 120000, 'values==m*r
                           'type.load_signal(acc_sig)->AccSignal': 180000, 'type.load_sig->Signal': 200000,
                           'type.load_asig->AccSignal': 250000, 'history.same-path-reload': 300000,
                           'long-record(>65536).reload': 150, 'save.leaves-arguments-unchanged': 1000000,
-                          'earlier-result-intact-after-later-call': 1500000}}
+                          'earlier-result-intact-after-later-call': 1500000,
+                          'returned-objects-share-no-memory': 1000000, 'block-boundary-record(4095..65536).reload': 300}}
 
 CTX = None
 REG = {}        # realpath -> {'saved': op dict of the last successful save (None = unknown), 'pid': int, 'n_saves': int}
@@ -546,10 +560,8 @@ def _hold(key, loader, result):
     if snap is None:
         return
     for hkey, hloader, hres, hsnap in HELD:
-        if hres is result:
-            continue
-        try:
-            shared = bool(np.may_share_memory(_values_of(result), _values_of(hres)))
+        try:      # the very same object handed out twice is sharing too
+            shared = hres is result or bool(np.may_share_memory(_values_of(result), _values_of(hres)))
         except Exception:
             shared = False
         CTX.check(not shared, 'returned-objects-share-no-memory',
@@ -923,19 +935,29 @@ def execute(eqsig, ctx, op, path):
 DT_LIST = [0.0001, 0.0001, 1000, 1000.0, 0.005, 0.01, 0.02, 0.5, 0.9999, 1, 1.0, 1.5, 2.5, 10, 10.0, 12, 12.0, 99.9999, 100, 100.0,
            1.0005, 12.3456, 1.0001, 9.9999, 10.0001, 50.505, 7.0707, 3.1416, 0.1, 0.2, 0.025, 0.0025, 2, 20, 60]
 VALUE_CLASSES = ['record', 'record', 'record', 'tiny', 'halfway6', 'tie6', 'huge', 'manydigit', 'mixed', 'int', 'f32',
-                 'zeros', 'micro', 'offset', 'edges', 'edges', 'narrow-int', 'narrow-int', 'f16']
+                 'zeros', 'micro', 'offset', 'edges', 'edges', 'narrow-int', 'narrow-int', 'f16', 'spike-dynamic', 'shape',
+                 'shape']
 NARROW = [np.int8, np.uint8, np.int16, np.uint16, np.int32, np.uint32]
 LABELS = ['a label with spaces', '123', '123 4', '12 0.5000', '3 0.0100', '', 'a,b', '1.5,2.5', '# hash', 'x#y',
           ' lead', 'trail ', 'two  spaces', '-1.5', '0.01', 'nan', 'm1', 'M1', 'label', 'dt=0.01 npts=100',
           'ChiChi_EW (scaled, 0.5g) #3']
 _LABEL_CHARS = ''.join(c for c in string.printable if c not in '\t\n\r\x0b\x0c')
 M_LIST = [1, 1.0, 2, 2.0, 0.5, -1, -1.0, 9.81, 0, 0.0, -0.0, np.float64(2.5), np.float32(9.81), np.int64(3), 1e-12, 1e12,
-          -1e-9, 1e9]
+          -1e-9, 1e9, np.array(2.5), np.array([0.5]), np.array(-1.0)]
 
 
 def gen_dt(rng):
     """Returns (dt, class). Every dt is inside the judged range [1e-4, 1000]."""
-    k = int(rng.choice(10, p=[.13, .14, .20, .13, .10, .07, .05, .05, .08, .05]))
+    k = int(rng.choice(13, p=[.11, .12, .17, .11, .09, .06, .04, .04, .07, .05, .05, .05, .04]))
+    if k == 10:  # awkward float quotients: dt/(dt/k) != k, (dt/k)*k != dt ...
+        return gen.awkward_dt(rng, int(rng.integers(2, 200))), 'awkward-quotient'
+    if k == 11:  # raw reciprocals of an integer rate (1/49, 1/93, 1/128 ...): many decimals, int(1/dt) one off for some
+        rate = int(rng.choice([int(rng.integers(2, 5000)), 49, 93, 98, 99, 103, 107, 128, 161, 186, 196, 198, 256]))
+        return 1.0 / rate, 'recip-raw'
+    if k == 12:  # within 1 % of such a step (a step that is merely NEAR a standard sampling rate)
+        d = (1.0 / int(rng.integers(1, 2000))) * (1.0 + rng.uniform(-0.009, 0.009))
+        return float(max(1e-4, d)), 'near-recip'
+
     if k == 0:
         return DT_LIST[int(rng.integers(len(DT_LIST)))], 'list'
     if k == 1:   # 4-decimal steps over six decades
@@ -1048,6 +1070,31 @@ def gen_values(rng, n, cls=None):
         if n >= 2:
             x[0], x[-1] = ii.max, ii.min
         return x, np.dtype(t).name
+    if cls == 'spike-dynamic':   # one sample 1e3..1e12 times larger than the steps between the others
+        x = np.cumsum(rng.normal(size=n)) * 10.0 ** rng.uniform(-5, -1)
+        x[int(rng.integers(n))] = float(rng.choice([-1.0, 1.0])) * (np.max(np.abs(x)) + 1e-6) * 10.0 ** rng.uniform(3, 12)
+        return x, cls
+    if cls == 'shape':           # shapes the statement does not forbid
+        how = int(rng.integers(0, 6))
+        amp = 10.0 ** rng.uniform(-3, 3)
+        if how == 0:             # monotone / trend dominated, non-zero at both ends
+            x = (5.0 + np.cumsum(np.abs(rng.normal(size=n)))) * float(rng.choice([-1.0, 1.0]))
+        elif how == 1:           # one-sided: all the action at negative values
+            x = -np.abs(rng.normal(size=n)) - 0.001
+        elif how == 2:           # tail-heavy: everything in the last tenth
+            x = np.zeros(n)
+            kk = max(1, n // 10)
+            x[n - kk:] = rng.normal(size=kk)
+        elif how == 3:           # constant magnitude, alternating sign (energy at the Nyquist frequency)
+            x = np.where(np.arange(n) % 2 == 0, 1.0, -1.0) * float(rng.uniform(0.1, 9.9))
+        elif how == 4:           # a single step between two non-zero levels, ends above any threshold
+            x = np.full(n, 7.25)
+            x[int(rng.integers(n)):] = -3.5
+        else:                    # exact zeros inside an otherwise busy record, non-zero first and last sample
+            x = rng.normal(size=n) + 0.5
+            x[rng.random(size=n) < 0.3] = 0.0
+            x[0], x[-1] = 1.5, -2.5
+        return x * amp, 'shape-%d' % how
     if cls == 'f16':
         return np.clip(rng.normal(size=n) * 10.0 ** rng.uniform(-2, 3), -6e4, 6e4).astype(np.float16), cls
     raise ValueError(cls)
@@ -1228,7 +1275,7 @@ def _digest(ops):
                       repr([type(x).__name__[0] for x in op['raw']]) if op.get('raw') is not None else None]
         else:
             parts += [repr(op.get('args')), repr(sorted((op.get('kwargs') or {}).items())), repr(op.get('index')),
-                      repr(op.get('new')), op.get('label')]
+                      repr(op.get('new')), op.get('label'), op.get('how'), repr(op.get('ratio')), op.get('member')]
     return core.digest(*parts)
 
 
@@ -1336,6 +1383,11 @@ def case_history(rng, npaths=1):
         for ld in some_loads(rng, int(rng.integers(1, 5))):
             ld['pid_local'] = pl
             ops.append(ld)
+        if rng.random() < 0.2:        # the caller edits the last result in place, then reads the same path again
+            ops.append({'op': 'edit_result', 'how': ['scale', 'zero', 'first'][int(rng.integers(3))], 'pid_local': pl})
+            for ld in some_loads(rng, int(rng.integers(1, 3))):
+                ld['pid_local'] = pl
+                ops.append(ld)
         if rng.random() < 0.15:       # the SAME argument object (array / Signal) is saved a second time, here or elsewhere
             again = dict(last_sv, same_object_as_prev_save=True)
             again['pid_local'] = int(rng.integers(npaths)) if npaths > 1 else pl
@@ -1351,6 +1403,13 @@ def case_history(rng, npaths=1):
                 ld['pid_local'] = pl
                 ops.append(ld)
     return ops, info0
+
+
+def case_history_seeded(case_seed, kind):
+    """case_history from its own seed, so that a witness can regenerate the driver's block (in-place edits of results
+    included, which are not library calls and therefore not in the recorded call list)."""
+    rng = np.random.default_rng([16, 780, int(case_seed)])
+    return case_history(rng, 1 if kind == 'history' else int(rng.integers(2, 4)))
 
 
 def case_objhist(case_seed):
@@ -1377,7 +1436,20 @@ def case_objhist(case_seed):
         for ld in some_loads(rng, int(rng.integers(1, 4))):
             ld['pid_local'] = pl
             ops.append(ld)
-        k = int(rng.integers(0, 7))
+        k = int(rng.integers(0, 12))
+        if k == 7:
+            ops.append({'op': 'mutate', 'kind': 'warm'})
+        elif k == 8:
+            ops.append({'op': 'mutate', 'kind': 'warm'})
+            ops.append({'op': 'mutate', 'kind': 'deepcopy'})
+            ops.append({'op': 'mutate', 'kind': 'inplace', 'index': [0, max(0, n - 1)],
+                        'new': [float(np.round(x, 3)) for x in rng.normal(size=2) * 50]})
+        elif k == 9:
+            ops.append({'op': 'mutate', 'kind': 'interp', 'ratio': float(rng.choice([0.3, 0.5, 0.7, 1.0 / 3, 0.9]))})
+        elif k == 10:
+            ops.append({'op': 'mutate', 'kind': 'resample'})
+        elif k == 11:
+            ops.append({'op': 'mutate', 'kind': 'cluster-member', 'member': int(rng.integers(0, 2))})
         if k == 0:
             ops.append({'op': 'mutate', 'kind': 'reset_values', 'values': gen_values(rng, n)[0], 'container': 'ndarray'})
         elif k == 1:
@@ -1401,6 +1473,8 @@ def case_objhist(case_seed):
     for ld in all_loads(rng):
         ld['pid_local'] = pl
         ops.append(ld)
+    if rng.random() < 0.1:
+        ops.append({'op': 'complex_probe', 'pid_local': pl})
     return ops, info
 
 
@@ -1444,6 +1518,10 @@ def run_sweep(eqsig, ctx, tmpd):
 
 # ------------------------------------------------------------------------------------------- long records
 LONG_QUICK = [65535, 65536, 65537, 70001, 131072, 131073, 200003]
+# block boundaries below 2**16: powers of two +-1, decimal blocks, several blocks plus one
+MEDIUM_QUICK = [4095, 4096, 4097, 8191, 8192, 8193, 10000, 10001, 12289, 16383, 16384, 16385, 20001, 32767, 32768, 32769,
+                50001]
+MEDIUM_THOROUGH = [5000, 5001, 9999, 24576, 24577, 30001, 40960, 40961, 49152, 49153, 60001, 100000, 100001, 250001]
 LONG_VALUE_CLASSES = ['record', 'record', 'record', 'manydigit', 'f32', 'int', 'mixed']
 
 
@@ -1460,6 +1538,16 @@ def long_plan(tier, seed):
     for n in lens:
         plan.append((n, 'save_signal'))
         plan.append((n, 'save_values_and_dt'))
+    for i, n in enumerate(MEDIUM_QUICK):
+        if tier == 'quick':      # one saver per length, alternating (both savers share the writer)
+            plan.append((n, 'save_signal' if (i + int(seed)) % 2 else 'save_values_and_dt'))
+        else:
+            plan.append((n, 'save_signal'))
+            plan.append((n, 'save_values_and_dt'))
+    if tier != 'quick':
+        for n in MEDIUM_THOROUGH:
+            plan.append((n, 'save_signal'))
+            plan.append((n, 'save_values_and_dt'))
     plan.sort(key=lambda t: -t[0])      # round robin over the shards in order of cost
     return plan
 
@@ -1492,7 +1580,8 @@ def run_long(eqsig, ctx, tmpd, counter):
             continue
         ops, info = case_long(ctx.tier, ctx.seed, idx)
         _run_case(eqsig, ctx, tmpd, ops, 'long(npts=%s)' % ('2^16+-1' if abs(plan[idx][0] - 65536) <= 1 else
-                                                           ('>2^16' if plan[idx][0] > 65536 else '<2^16')),
+                                                           ('>2^16' if plan[idx][0] > 65536 else
+                                                            ('<2^16' if plan[idx][0] > 50001 else '4095..50001'))),
                   info, counter, recipe={'kind': 'long', 'tier': ctx.tier, 'seed': int(ctx.seed), 'idx': idx})
 
 
@@ -1514,10 +1603,10 @@ def run_shard(ctx):
                 recipe = None
                 if kind == 'oneshot':
                     ops, info = case_oneshot(rng)
-                elif kind == 'history':
-                    ops, info = case_history(rng, 1)
-                elif kind == 'interleaved':
-                    ops, info = case_history(rng, int(rng.integers(2, 4)))
+                elif kind in ('history', 'interleaved'):
+                    cs = int(rng.integers(0, 2 ** 62))
+                    ops, info = case_history_seeded(cs, kind)
+                    recipe = {'kind': kind, 'case_seed': cs, 'digest': _digest(ops)}
                 else:
                     cs = int(rng.integers(0, 2 ** 62))
                     ops, info = case_objhist(cs)
@@ -1550,8 +1639,10 @@ def replay(w):
             install(ctx)
         ops = w['ops']
         rc = w.get('recipe') or {}
-        if rc.get('kind') == 'objhist':      # object history: regenerate the driver's block (mutators included)
-            regen = case_objhist(rc['case_seed'])[0]
+        if rc.get('kind') in ('objhist', 'history', 'interleaved'):
+            # regenerate the driver's block (mutators and in-place edits included)
+            regen = (case_objhist(rc['case_seed'])[0] if rc['kind'] == 'objhist'
+                     else case_history_seeded(rc['case_seed'], rc['kind'])[0])
             if _digest(regen) == rc.get('digest'):
                 ops = regen                  # else: the generator changed since; fall back to the recorded calls
         elif rc:                             # long record: regenerate the block from the driver's deterministic recipe
